@@ -81,35 +81,50 @@ def centre_status(cm, tol):
     return UND
 
 
-def polygon_status(xs, cms, use, ncaps, pts_ld, band, centre_tol, exact=()):
-    """Status of every point against one polygon.
+def cap_table(xs, cms, pts_ld, band, centre_tol, exact=()):
+    """Per-cap statuses of every point, evaluated once: list of (status array, |d - |cm|| as float64).
 
-    xs (n,3), cms (n,), use: int bit mask, ncaps: the ``ncaps`` argument of is_in_polygon (0 = all).
     exact: iterable of (point_index, cap_index): the point is a bit-exact copy of that cap's centre.
-    Returns (status array, near array) where near[j] is the smallest |d - |cm|| over the caps evaluated.
     """
-    n = len(cms)
-    npts = pts_ld.shape[0]
+    ex = {}
+    for j, k in exact:
+        ex.setdefault(k, []).append(j)
+    table = []
+    for k in range(len(cms)):
+        st, d = cap_status(xs[k], cms[k], pts_ld, band)
+        for j in ex.get(k, ()):
+            st[j] = centre_status(float(cms[k]), centre_tol)
+        table.append((st, np.abs(d - abs(LD(cms[k]))).astype(np.float64)))
+    return table
+
+
+def combine_caps(table, use, ncaps, npts):
+    """AND of the caps k < (ncaps or n) whose bit is set in ``use``; (status, nearest boundary distance)."""
+    n = len(table)
     nuse = n if ncaps <= 0 else min(int(ncaps), n)
     any_out = np.zeros(npts, dtype=bool)
     any_und = np.zeros(npts, dtype=bool)
     near = np.full(npts, np.inf)
-    ex = {}
-    for j, k in exact:
-        ex.setdefault(k, []).append(j)
     for k in range(nuse):
         if not (int(use) >> k) & 1:
             continue
-        st, d = cap_status(xs[k], cms[k], pts_ld, band)
-        for j in ex.get(k, ()):
-            st[j] = centre_status(float(cms[k]), centre_tol)
+        st, dist = table[k]
         any_out |= st == OUT
         any_und |= st == UND
-        near = np.minimum(near, np.abs(d - abs(LD(cms[k]))).astype(np.float64))
+        near = np.minimum(near, dist)
     res = np.full(npts, IN, dtype=np.int8)
     res[any_und] = UND
     res[any_out] = OUT          # one decided OUT settles the AND whatever the undecided caps say
     return res, near
+
+
+def polygon_status(xs, cms, use, ncaps, pts_ld, band, centre_tol, exact=()):
+    """Status of every point against one polygon.
+
+    xs (n,3), cms (n,), use: int bit mask, ncaps: the ``ncaps`` argument of is_in_polygon (0 = all).
+    Returns (status array, near array) where near[j] is the smallest |d - |cm|| over the caps evaluated.
+    """
+    return combine_caps(cap_table(xs, cms, pts_ld, band, centre_tol, exact), use, ncaps, pts_ld.shape[0])
 
 
 def window_allowed(poly_status):
